@@ -132,7 +132,8 @@ SimpleTrials(F, design, K) ==
         B == { i \in 1..Len(F) : F[i].kind = "b" /\ i \in S }
         base == ProdFn([i \in 1..Len(F) |-> IF i \in B THEN 1..F[i].nl ELSE {0}])
         filled == { FillSimple(F, S, tr, 1) : tr \in base }
-    IN { tr \in filled : /\ \A i \in S : tr[i] # 0
+    IN { tr \in filled : \* (a simple factor without a unique level has 0 here: that is an error of the design - Partial /
+                         \*  Ambiguous - and does not shrink a crossing it is not part of)
                          \* READING-1 (code; the documentation only speaks of excluded levels of crossed
                          \* factors and of derived levels): an excluded level of a non-derived factor
                          \* outside the crossing does not make a combination infeasible
